@@ -28,6 +28,8 @@ inductive Value where
   | inf (neg : Bool)       -- `float('inf')` / `float('-inf')`
   | str (s : String)
   | list (l : List Value)
+  | tuple (l : List Value)   -- a Python tuple *argument*; `OmegaConf.structured` stores it as a list (the driver
+                             -- prints it so), but the builders' `isinstance(…, list)` tests tell the two apart
 
 inductive Cfg where
   | leaf (v : Value)
@@ -99,11 +101,21 @@ mutual
     | (k, v) :: r => !(hasKey k r) && wf v && wfKvs r
 end
 
-/- some leaf is OmegaConf's `MISSING` marker (`"???"`) -/
+/- some leaf is — or, for a list value, contains — OmegaConf's `MISSING` marker (`"???"`) -/
+mutual
+  def Value.missing : Value → Bool
+    | .str s => s == "???"
+    | .list l => Value.missingList l
+    | .tuple l => Value.missingList l
+    | _ => false
+  def Value.missingList : List Value → Bool
+    | [] => false
+    | v :: r => v.missing || Value.missingList r
+end
+
 mutual
   def hasMissing : Cfg → Bool
-    | .leaf (.str s) => s == "???"
-    | .leaf _ => false
+    | .leaf v => v.missing
     | .node kvs => hasMissingKvs kvs
   def hasMissingKvs : Kvs → Bool
     | [] => false
@@ -336,8 +348,9 @@ def GeoName.isAffine : GeoName → Bool
   | .rotation | .scale | .translate => true
   | _ => false
 
-/-- one iteration of the loop **as it is in /repo** (every affine branch also switches the
-other affine parameters off) -/
+/-- REGRESSION RECORD (F-C20, fixed in /repo by ba6346f): one iteration of the loop as it was
+before the fix (every affine branch also switched the other affine parameters off).  No longer
+the code; kept so that the counterexample and the partial theorem stay checked. -/
 def geoStepAsIs (g : Geo) : GeoName → Geo
   | .rotation => { g with affineP := fl 1, scale := pair 1 1, th := fl 0, tw := fl 0 }
   | .scale => { g with scale := pair d09 d11, affineP := fl 1, rotation := fl 0, th := fl 0, tw := fl 0 }
@@ -506,6 +519,14 @@ def setField (c : Cfg) (k : String) (v : Cfg) : Cfg :=
   | .node kvs => .node (setKey k v kvs)
   | .leaf _ => c
 
+/-- dict form, one family: `backbone_config.<field> = Cls(**backbone_cfg[<field>])` -/
+def backbonePick (env : Env) (bb : Cfg) (d : Kvs) (field cls : String) : Except String Cfg :=
+  match kwargsOf ((lookup field d).getD cnull) with
+  | .error e => .error e
+  | .ok kw => match mk env cls kw with
+    | .error e => .error e
+    | .ok t => .ok (setField bb field t)
+
 def getBackboneConfig (env : Env) (a : Cfg) : Except String Cfg :=
   let bb := env.cls "BackboneConfig"
   match a with
@@ -514,15 +535,9 @@ def getBackboneConfig (env : Env) (a : Cfg) : Except String Cfg :=
     | .error e => .error e
     | .ok (field, _, placed) => .ok (setField bb field (env.cls placed))
   | .node d =>
-    let pick (field cls : String) : Except String Cfg :=
-      match kwargsOf ((lookup field d).getD cnull) with
-      | .error e => .error e
-      | .ok kw => match mk env cls kw with
-        | .error e => .error e
-        | .ok t => .ok (setField bb field t)
-    if hasKey "unet" d then pick "unet" "UNetConfig"
-    else if hasKey "convnext" d then pick "convnext" "ConvNextConfig"
-    else if hasKey "swint" d then pick "swint" "SwinTConfig"
+    if hasKey "unet" d then backbonePick env bb d "unet" "UNetConfig"
+    else if hasKey "convnext" d then backbonePick env bb d "convnext" "ConvNextConfig"
+    else if hasKey "swint" d then backbonePick env bb d "swint" "SwinTConfig"
     else .ok bb
   | _ => .ok bb
 
@@ -556,34 +571,37 @@ def item (c : Cfg) (k : String) : Except String Cfg :=
     | none => .error "KeyError"
   | .leaf _ => .error "TypeError"
 
+/-- dict form, the selected head: `XConfig(confmaps=XConfMapsConfig(**sub["confmaps"]) [, pafs=PAFConfig(**sub["pafs"])])` -/
+def headBuild (env : Env) (hd : Cfg) (field cls cmCls : String) (sub : Cfg) : Except String Cfg :=
+  match item sub "confmaps" with
+  | .error e => .error e
+  | .ok cm => match kwargsOf cm with
+    | .error e => .error e
+    | .ok kw => match mk env cmCls kw with
+      | .error e => .error e
+      | .ok cmT =>
+        if field = "bottomup" then
+          match item sub "pafs" with
+          | .error e => .error e
+          | .ok pf => match kwargsOf pf with
+            | .error e => .error e
+            | .ok pkw => match mk env "PAFConfig" pkw with
+              | .error e => .error e
+              | .ok pT => match mk env cls [("confmaps", cmT), ("pafs", pT)] with
+                | .error e => .error e
+                | .ok t => .ok (setField hd field t)
+        else
+          match mk env cls [("confmaps", cmT)] with
+          | .error e => .error e
+          | .ok t => .ok (setField hd field t)
+
 def headFromDict (env : Env) (hd : Cfg) (d : Kvs) : List (String × String × String) → Except String Cfg
   | [] => .ok hd
   | (field, cls, cmCls) :: rest =>
     match lookup field d with
     | some sub =>
       if sub.isNull then headFromDict env hd d rest
-      else
-        match item sub "confmaps" with
-        | .error e => .error e
-        | .ok cm => match kwargsOf cm with
-          | .error e => .error e
-          | .ok kw => match mk env cmCls kw with
-            | .error e => .error e
-            | .ok cmT =>
-              if field = "bottomup" then
-                match item sub "pafs" with
-                | .error e => .error e
-                | .ok pf => match kwargsOf pf with
-                  | .error e => .error e
-                  | .ok pkw => match mk env "PAFConfig" pkw with
-                    | .error e => .error e
-                    | .ok pT => match mk env cls [("confmaps", cmT), ("pafs", pT)] with
-                      | .error e => .error e
-                      | .ok t => .ok (setField hd field t)
-              else
-                match mk env cls [("confmaps", cmT)] with
-                | .error e => .error e
-                | .ok t => .ok (setField hd field t)
+      else headBuild env hd field cls cmCls sub
     | none => headFromDict env hd d rest
 
 def headClassOf (s : String) : Option (String × String) :=
@@ -636,6 +654,7 @@ def truthy : Cfg → Bool
   | .leaf (.inf _) => true
   | .leaf (.str s) => s ≠ ""
   | .leaf (.list l) => !l.isEmpty
+  | .leaf (.tuple l) => !l.isEmpty
   | .node kvs => !kvs.isEmpty
 
 def getDataConfig (v : Variant) (env : Env) (a : Kvs) : Except String Cfg :=
